@@ -2,8 +2,8 @@
 B = "Bounded symbolic model checking of the real code (go/ssa -> symgo -> SMT; solver verdict over every value inside the bounds, counterexamples replayed natively): "
 
 claim("C01",
-  B + "NETWORK COMPOSITION of N=3 real nodes (real PubSub + real FloodSubRouter / RandomSubRouter built by the real constructors) wired through their real outbound queues and handleIncomingRPC, line and ring topologies, one harness per role assignment in {bystander, subscriber, relay}^3 (floodsub 28 quick + 16 thorough, randomsub 6): every subscriber receives a published message exactly once, non-subscribers never, nothing is delivered twice, no RPC is left undelivered.",
-  "floodsub and randomsub only: gossipsub mesh formation / gossip repair across nodes, more than 3 nodes, churn during propagation and mixed-protocol networks are NOT decided (their single-node obligations are C06/C07/C17). Publisher, arrival order of queued RPCs and roles are concrete per harness.",
+  B + "NETWORK COMPOSITION of N=3 real nodes (real PubSub + real FloodSubRouter / RandomSubRouter built by the real constructors) wired through their real outbound queues and handleIncomingRPC: which links are up (all 8 graphs on 3 nodes) and which node publishes are solver variables, the role assignment in {bystander, subscriber with two subscriptions, relay only}^3 and the order roles-before/after-connecting are concrete, one harness per combination (floodsub 38 quick + 14 thorough, randomsub 6): no subscription receives a message twice; a subscription receives it exactly when its node is reachable from the publisher through overlay members, hence on a connected overlay every subscription of every subscriber exactly once; bystanders and relays deliver nothing.",
+  "floodsub and randomsub only: gossipsub mesh formation / gossip repair across nodes, more than 3 nodes, churn during propagation, lossy queues and mixed-protocol networks are NOT decided (their single-node obligations are C06/C07/C17). Transport is a lock-step delivery loop in the harness.",
   "DESIGN.md §4 C01")
 claim("C02",
   B + "FirstSeenCache/LastSeenCache Add/Has/sweep as histories of K=4 (thorough 6) symbolic operations over 2 (3) IDs with symbolic TTL and clock against a first/last-sighting oracle; the same as ONE step from an arbitrary cache state (any history length for the expiry arithmetic, sweep exactly at the expiry instant included); the REAL background sweeper goroutine receiving one tick forgets exactly the entries expired before the tick; and the validation pipeline's seen gate (markSeen before validators, second copy dropped).",
